@@ -138,13 +138,17 @@ enum Op {
     Del(u64),
     /// explicit TensorStore::sync() -- a no-op for the model (not printed), only moves the ack watermark
     Sync,
+    /// a checkpoint() that fails while writing the snapshot (0: target directory missing,
+    /// 1: the temp file name is occupied by a directory); must leave store, log and snapshot as
+    /// they were -- a no-op for the model (not printed)
+    CkptFail(u64),
 }
 impl Op {
     fn coq(&self) -> String {
         match self {
             Op::Put(k, v) => format!("Put {} {}", k, v.coq()),
             Op::Del(k) => format!("Del {k}"),
-            Op::Sync => unreachable!("Sync is not a model op"),
+            Op::Sync | Op::CkptFail(_) => unreachable!("not a model op"),
         }
     }
 }
@@ -209,7 +213,7 @@ fn table(vals: &mut Values, ops: &[Op], max_ids: u64) -> String {
                 push(format!("MetaDel {k}"), WalEntry::MetadataDelete { key: kname(*k) }, &mut rows);
                 push(format!("EntRemove {k}"), WalEntry::EntityRemove { key: kname(*k) }, &mut rows);
             }
-            Op::Sync => {}
+            Op::Sync | Op::CkptFail(_) => {}
         }
     }
     for id in 0..max_ids {
@@ -234,6 +238,83 @@ struct GenOut {
     oracle_fail: Option<String>,
 }
 
+struct OpsOut {
+    results: Vec<bool>,
+    lives: Vec<Obs>,
+    ends: Vec<u64>,
+    acks: Vec<u64>,
+    model_ops: Vec<Op>,
+}
+/// run calls on the live store; observe after each; `ends` = logical end offset of each call's
+/// records, `acks` = that offset once an fsync covered it (NEVER otherwise)
+fn run_ops(store: &TensorStore, wal: &Path, vals: &mut Values, ops: &[Op], dist: &mut Dist, snap_for_fail: &Path) -> OpsOut {
+    let mut results = vec![];
+    let mut lives: Vec<Obs> = vec![observe(store)];
+    let mut ends: Vec<u64> = vec![];
+    let mut acks: Vec<u64> = vec![];
+    const NEVER: u64 = 1_000_000_000_000_000_000;
+    for op in ops {
+        if matches!(op, Op::Sync) {
+            dist.hit("op.sync");
+            let _ = store.sync();
+            let on_disk = fs::metadata(wal).map(|m| m.len()).unwrap_or(0);
+            for (e, a) in ends.iter().zip(acks.iter_mut()) {
+                if *e <= on_disk {
+                    *a = *e;
+                }
+            }
+            continue;
+        }
+        if let Op::CkptFail(kind) = op {
+            // the snapshot cannot be written: checkpoint() must fail and change nothing
+            let r = if *kind == 0 {
+                store.checkpoint(snap_for_fail.parent().unwrap().join("no-such-dir").join("x.snap"))
+            } else {
+                let mut tmp = snap_for_fail.as_os_str().to_owned();
+                tmp.push(".tmp");
+                let tmp = PathBuf::from(tmp);
+                let _ = fs::create_dir_all(&tmp);
+                let r = store.checkpoint(snap_for_fail);
+                let _ = fs::remove_dir_all(&tmp);
+                r
+            };
+            dist.hit(if r.is_err() { "op.checkpoint_fails" } else { "op.checkpoint_fails.UNEXPECTED_OK" });
+            continue;
+        }
+        let ok = match op {
+            Op::Put(k, v) => {
+                dist.hit(&format!("op.put.class{}", k % 5));
+                if v.emb.map_or(false, |e| e >= 100) {
+                    dist.hit("op.put.embedding384");
+                } else if v.emb.is_some() {
+                    dist.hit("op.put.embedding_short");
+                }
+                guarded(std::panic::AssertUnwindSafe(|| store.put_durable(kname(*k), vals.data(*v)).is_ok())).unwrap_or(false)
+            }
+            Op::Del(k) => {
+                dist.hit(&format!("op.del.class{}", k % 5));
+                guarded(std::panic::AssertUnwindSafe(|| store.delete_durable(&kname(*k)).is_ok())).unwrap_or(false)
+            }
+            Op::Sync | Op::CkptFail(_) => unreachable!(),
+        };
+        dist.hit(if ok { "call.ok" } else { "call.err" });
+        results.push(ok);
+        lives.push(observe(store));
+        // logical end of this call's records (includes bytes still in the writer's buffer)
+        ends.push(store.wal_status().map_or(0, |st| st.size_bytes));
+        acks.push(NEVER);
+        // whatever has reached the file by now was fsynced (Immediate / full batch): acknowledged
+        let on_disk = fs::metadata(wal).map(|m| m.len()).unwrap_or(0);
+        for (e, a) in ends.iter().zip(acks.iter_mut()) {
+            if *e <= on_disk {
+                *a = *e;
+            }
+        }
+    }
+    let model_ops: Vec<Op> = ops.iter().filter(|o| matches!(o, Op::Put(..) | Op::Del(..))).cloned().collect();
+    OpsOut { results, lives, ends, acks, model_ops }
+}
+
 /// runs one generation on `store` (already opened on `wal`), then crashes at every byte of the
 /// appended region; returns the Gallina term and the file bytes
 #[allow(clippy::too_many_arguments)]
@@ -251,55 +332,9 @@ fn run_generation(
 ) -> (GenOut, Vec<u8>, u64) {
     let cfg = cfg.clone();
     let base = fs::metadata(wal).map(|m| m.len()).unwrap_or(0);
-    let mut results = vec![];
-    let mut lives: Vec<Obs> = vec![observe(&store)];
-    let mut ends: Vec<u64> = vec![];
-    let mut acks: Vec<u64> = vec![];
-    const NEVER: u64 = 1_000_000_000_000_000_000;
-    for op in ops {
-        if matches!(op, Op::Sync) {
-            dist.hit("op.sync");
-            let _ = store.sync();
-            let on_disk = fs::metadata(wal).map(|m| m.len()).unwrap_or(0);
-            for (e, a) in ends.iter().zip(acks.iter_mut()) {
-                if *e <= on_disk {
-                    *a = *e;
-                }
-            }
-            continue;
-        }
-        let ok = match op {
-            Op::Put(k, v) => {
-                dist.hit(&format!("op.put.class{}", k % 5));
-                if v.emb.map_or(false, |e| e >= 100) {
-                    dist.hit("op.put.embedding384");
-                } else if v.emb.is_some() {
-                    dist.hit("op.put.embedding_short");
-                }
-                guarded(std::panic::AssertUnwindSafe(|| store.put_durable(kname(*k), vals.data(*v)).is_ok())).unwrap_or(false)
-            }
-            Op::Del(k) => {
-                dist.hit(&format!("op.del.class{}", k % 5));
-                guarded(std::panic::AssertUnwindSafe(|| store.delete_durable(&kname(*k)).is_ok())).unwrap_or(false)
-            }
-            Op::Sync => unreachable!(),
-        };
-        dist.hit(if ok { "call.ok" } else { "call.err" });
-        results.push(ok);
-        lives.push(observe(&store));
-        // logical end of this call's records (includes bytes still in the writer's buffer)
-        ends.push(store.wal_status().map_or(0, |st| st.size_bytes));
-        acks.push(NEVER);
-        // whatever has reached the file by now was fsynced (Immediate / full batch): acknowledged
-        let on_disk = fs::metadata(wal).map(|m| m.len()).unwrap_or(0);
-        for (e, a) in ends.iter().zip(acks.iter_mut()) {
-            if *e <= on_disk {
-                *a = *e;
-            }
-        }
-    }
-    let ops: Vec<Op> = ops.iter().filter(|o| !matches!(o, Op::Sync)).cloned().collect();
-    let ops = &ops[..];
+    let fail_snap = snapshot.map_or_else(|| wal.with_extension("failsnap"), |p| p.to_path_buf());
+    let OpsOut { results, lives, ends, acks, model_ops } = run_ops(&store, wal, vals, ops, dist, &fail_snap);
+    let ops = &model_ops[..];
     drop(store);
     let fbytes = fs::read(wal).unwrap_or_default();
     let len = fbytes.len() as u64;
@@ -490,90 +525,152 @@ fn run_case_cfg(cx: &mut Ctx, label: &str, gens: Vec<Vec<Op>>, picks: Vec<Box<dy
     cx.w.push(&term, &human, ngen >= 1 && all_ops.len() >= 2);
 }
 
-/// crashes at the step boundaries inside checkpoint() (hook b979a711), then one more generation
-/// of calls recovered WITH the snapshot
-fn run_ckpt_case(cx: &mut Ctx, wck: &mut CaseWriter, label: &str, ops1: Vec<Op>, ops2: Vec<Op>) {
+/// Crash images around and inside checkpoint(): what is on disk (log + snapshot file) when it is
+/// called, at EVERY hook point reached inside it (in whatever order the code reaches them), when it
+/// returns, and at every byte between two images whose log grew.  Optionally after an earlier
+/// complete checkpoint (`pre`).  Then one more generation of calls recovered WITH the snapshot.
+#[allow(clippy::too_many_arguments)]
+fn run_ckpt_case(cx: &mut Ctx, wck: &mut CaseWriter, label: &str, pre: Option<Vec<Op>>, ops1: Vec<Op>, ops2: Vec<Op>, cfg: WalConfig) {
     use std::sync::{Arc, Mutex};
     cx.counter += 1;
     let dir: PathBuf = cx.args.out.join("scratch");
     fs::create_dir_all(&dir).unwrap();
     let wal = dir.join(format!("k{}.wal", cx.counter));
     let snap = dir.join(format!("k{}.snap", cx.counter));
-    let scratch = dir.join("crashk.wal");
-    let scratch_snap = dir.join("crashk.snap");
+    let scratch = dir.join(format!("crashk{}.wal", cx.counter));
+    let scratch_snap = dir.join(format!("crashk{}.snap", cx.counter));
     let _ = fs::remove_file(&wal);
     let _ = fs::remove_file(&snap);
-    let cfg = WalConfig::default();
-    let all_ops: Vec<Op> = ops1.iter().chain(ops2.iter()).cloned().collect();
+    let all_ops: Vec<Op> = pre.iter().flatten().chain(ops1.iter()).chain(ops2.iter()).cloned().collect();
     let tab = table(&mut cx.vals, &all_ops, all_ops.len() as u64 + 1);
     let store = TensorStore::open_durable(&wal, cfg.clone()).expect("open_durable");
-    let mut res1 = vec![];
-    for op in &ops1 {
-        res1.push(match op {
-            Op::Put(k, v) => store.put_durable(kname(*k), cx.vals.data(*v)).is_ok(),
-            Op::Del(k) => store.delete_durable(&kname(*k)).is_ok(),
-            Op::Sync => true,
-        });
+    // an earlier, complete checkpoint
+    let mut old_snap: Option<Vec<u8>> = None;
+    let pre_model: Option<Vec<Op>> = pre.as_ref().map(|p| p.iter().filter(|o| matches!(o, Op::Put(..) | Op::Del(..))).cloned().collect());
+    if let Some(p0) = &pre {
+        let _ = run_ops(&store, &wal, &mut cx.vals, p0, &mut cx.dist, &snap);
+        let _ = store.sync();
+        if store.checkpoint(&snap).is_err() {
+            cx.dist.hit("ckpt.first_checkpoint_failed");
+            return;
+        }
+        old_snap = fs::read(&snap).ok();
     }
-    let live = observe(&store);
-    let w = fs::read(&wal).unwrap_or_default();
-    // copy the files as they are at each step boundary
-    let seen: Arc<Mutex<Vec<(String, Vec<u8>, Vec<u8>)>>> = Arc::new(Mutex::new(vec![]));
+    let o1 = run_ops(&store, &wal, &mut cx.vals, &ops1, &mut cx.dist, &snap);
+    let live = o1.lives.last().unwrap().clone();
+    let wdisk = fs::read(&wal).unwrap_or_default();
+    // images: (point name, log bytes, snapshot bytes if the file exists)
+    type Img = (String, Vec<u8>, Option<Vec<u8>>);
+    let seen: Arc<Mutex<Vec<Img>>> = Arc::new(Mutex::new(vec![]));
+    seen.lock().unwrap().push(("checkpoint.called".into(), wdisk.clone(), fs::read(&snap).ok()));
     {
         let seen = seen.clone();
         let (walp, snapp) = (wal.clone(), snap.clone());
         tensor_store::verif_hook::set(Some(Arc::new(move |name: &str| {
-            if name.starts_with("checkpoint.") {
-                seen.lock().unwrap().push((name.to_string(), fs::read(&walp).unwrap_or_default(), fs::read(&snapp).unwrap_or_default()));
+            if name.starts_with("checkpoint.") || name.starts_with("snapshot.") {
+                seen.lock().unwrap().push((name.to_string(), fs::read(&walp).unwrap_or_default(), fs::read(&snapp).ok()));
             }
         })));
     }
     let ck = store.checkpoint(&snap);
     tensor_store::verif_hook::set(None);
-    let seen = seen.lock().unwrap().clone();
-    let snap_bytes = fs::read(&snap).unwrap_or_default();
-    if ck.is_err() || seen.len() != 2 || seen[0].0 != "checkpoint.snapshot_saved" || seen[1].0 != "checkpoint.marker_logged" {
-        cx.dist.hit("ckpt.hook_points_missing");
+    seen.lock().unwrap().push(("checkpoint.returned".into(), fs::read(&wal).unwrap_or_default(), fs::read(&snap).ok()));
+    let seen: Vec<Img> = seen.lock().unwrap().clone();
+    if ck.is_err() {
+        cx.dist.hit("ckpt.checkpoint_failed");
         return;
     }
-    let step_order_ok = seen[0].1 == w && seen[0].2 == snap_bytes && seen[1].1.starts_with(&w) && seen[1].2 == snap_bytes
-        && fs::metadata(&wal).map(|m| m.len()).unwrap_or(1) == 0;
-    cx.dist.hit(if step_order_ok { "ckpt.step_order_as_modelled" } else { "ckpt.step_order_DIFFERENT" });
-    let marker: Vec<u8> = seen[1].1[w.len().min(seen[1].1.len())..].to_vec();
-    let mut stages: Vec<(u64, u64, Option<Obs>)> = vec![];
+    for (name, _, _) in &seen {
+        cx.dist.hit(&format!("ckpt.point.{name}"));
+    }
+    let new_snap = fs::read(&snap).unwrap_or_default();
+    let code = |sb: &Option<Vec<u8>>| -> u64 {
+        match sb {
+            None => 0,
+            Some(b_) if *b_ == new_snap => 2,
+            Some(b_) if Some(b_) == old_snap.as_ref() => 1,
+            Some(_) => 3,
+        }
+    };
+    // the marker record, if it ever was on disk behind the log as it was at the call
+    // (what the log gained on disk up to the point "marker logged", if the marker reached the disk there)
+    let marker: Vec<u8> = seen
+        .iter()
+        .position(|(name, _, _)| name == "checkpoint.marker_logged")
+        .filter(|i| *i > 0 && seen[*i].1.len() > seen[*i - 1].1.len() && seen[*i].1.starts_with(&wdisk))
+        .map(|i| seen[i].1[wdisk.len()..].to_vec())
+        .unwrap_or_default();
+    // crash states: every image, plus every byte between two images whose log grew
     let mut fail: Option<String> = None;
-    let mut crash = |stage: u64, off: u64, wal_bytes: &[u8], with_snap: bool, stages: &mut Vec<(u64, u64, Option<Obs>)>| {
-        fs::write(&scratch, wal_bytes).unwrap();
-        let sp = if with_snap {
-            fs::write(&scratch_snap, &snap_bytes).unwrap();
-            Some(scratch_snap.as_path())
-        } else {
-            let _ = fs::remove_file(&scratch_snap);
-            None
-        };
-        let ro = match guarded(std::panic::AssertUnwindSafe(|| TensorStore::recover(&scratch, &cfg, sp))) {
-            Ok(Ok(s)) => Some(observe(&s)),
-            _ => None,
-        };
-        if ro.as_ref() != Some(&live) && fail.is_none() {
-            fail = Some(format!(
-                "crash inside checkpoint at stage {stage} (+{off} marker bytes): recovery {} but the live store showed {}",
-                ro.as_ref().map_or("FAILED".to_string(), |o| format!("gave {}", obs_human(o))),
-                obs_human(&live)
+    let mut images: Vec<String> = vec![];
+    let mut nstates = 0u64;
+    let n1 = o1.results.len();
+    let mut prev: Option<(Vec<u8>, Option<Vec<u8>>)> = None;
+    for (name, w, sb) in &seen {
+        let mut jobs: Vec<(Vec<u8>, Option<Vec<u8>>, u64, u64, String)> = vec![];
+        if let Some((pw, psb)) = &prev {
+            if w.len() > pw.len() + 1 && w.starts_with(pw) {
+                jobs.push((w.clone(), psb.clone(), pw.len() as u64 + 1, w.len() as u64 - 1, format!("between the previous point and {name}")));
+            }
+            if pw == w && psb == sb {
+                continue; // nothing changed on disk
+            }
+        }
+        jobs.push((w.clone(), sb.clone(), w.len() as u64, w.len() as u64, format!("at {name}")));
+        prev = Some((w.clone(), sb.clone()));
+        for (wb, sbytes, lo, hi, what) in jobs {
+            let sc = code(&sbytes);
+            let mut runs: Vec<(u64, u64, u64, Option<Obs>)> = vec![];
+            for k in lo..=hi {
+                fs::write(&scratch, &wb[..k as usize]).unwrap();
+                let sp = match &sbytes {
+                    Some(bs) => {
+                        fs::write(&scratch_snap, bs).unwrap();
+                        Some(scratch_snap.as_path())
+                    }
+                    None => {
+                        let _ = fs::remove_file(&scratch_snap);
+                        None
+                    }
+                };
+                let ro = match guarded(std::panic::AssertUnwindSafe(|| TensorStore::recover(&scratch, &cfg, sp))) {
+                    Ok(Ok(st)) => Some(observe(&st)),
+                    _ => None,
+                };
+                nstates += 1;
+                // the oracle of Run.v (image_oracle), only to label the evidence
+                let acked = if sc == 2 {
+                    o1.acks.iter().filter(|e| **e < 1_000_000_000_000_000_000).count()
+                } else {
+                    o1.acks.iter().filter(|e| **e <= k).count()
+                };
+                let holds = ro.as_ref().map_or(false, |o| o1.lives[acked.min(n1)..].iter().any(|l| l == o));
+                if !holds && fail.is_none() {
+                    fail = Some(format!(
+                        "crash inside checkpoint {what} (log prefix {k} of {}, snapshot {}, {acked} calls acknowledged): recovery {}, which is not the state after any acknowledged-covering prefix of the calls; the live store showed {}",
+                        wb.len(),
+                        ["absent", "of the previous checkpoint", "of this checkpoint", "unknown"][sc as usize],
+                        ro.as_ref().map_or("FAILED".to_string(), |o| format!("gave {}", obs_human(o))),
+                        obs_human(&live)
+                    ));
+                }
+                match runs.last_mut() {
+                    Some((from, to, step, o)) if *o == ro && (*from == *to || k - *to == *step) => {
+                        *step = k - *to;
+                        *to = k;
+                    }
+                    _ => runs.push((k, k, 1, ro)),
+                }
+            }
+            images.push(format!(
+                "({}, {}, {})",
+                bytes(&wb),
+                sc,
+                list(runs.iter().map(|(a, z, st, o)| format!("({}, {}, {}, {})", a, z, st, opt(o.as_ref().map(obs_coq)))))
             ));
         }
-        stages.push((stage, off, ro));
-    };
-    crash(0, 0, &w, false, &mut stages);
-    crash(1, 0, &w, true, &mut stages);
-    for off in 0..=marker.len() as u64 {
-        let mut b2 = w.clone();
-        b2.extend_from_slice(&marker[..off as usize]);
-        crash(2, off, &b2, true, &mut stages);
     }
-    crash(3, 0, &[], true, &mut stages);
-    drop(crash);
-    cx.dist.add("ckpt.crash_states", stages.len() as u64);
+    cx.dist.add("ckpt.crash_states", nstates);
     // the calls after the checkpoint, crashed at every byte, recovered with the snapshot
     let mut pick = pick_end();
     let thorough = cx.args.thorough();
@@ -582,23 +679,27 @@ fn run_ckpt_case(cx: &mut Ctx, wck: &mut CaseWriter, label: &str, ops1: Vec<Op>,
         fail = g2.oracle_fail.clone().map(|f| format!("after the checkpoint: {f}"));
     }
     let term = format!(
-        "({}, {}, {}, {}, {}, {}, {}, {}, {})",
+        "({}, {}, {}, {}, {}, {}, {}, {}, {}, {}, {}, {})",
         tab,
         K,
-        list(ops1.iter().map(|o| o.coq())),
-        list(res1.iter().map(|r| b(*r))),
-        obs_coq(&live),
-        bytes(&w),
+        opt(pre_model.as_ref().map(|p| list(p.iter().map(|o| o.coq())))),
+        list(o1.model_ops.iter().map(|o| o.coq())),
+        list(o1.results.iter().map(|r| b(*r))),
+        list(o1.lives.iter().map(obs_coq)),
+        list(o1.ends.iter().map(|e| n(*e))),
+        list(o1.acks.iter().map(|e| n(*e))),
+        bytes(&wdisk),
         bytes(&marker),
-        list(stages.iter().map(|(st, off, o)| format!("({}, {}, {})", st, off, opt(o.as_ref().map(obs_coq))))),
+        list(images),
         g2.term
     );
     let human = format!(
-        "{label}: ops_before={:?} results={:?} live_at_checkpoint={} log_len={} marker_len={} crash_states={} | after checkpoint: {}{}",
-        ops1, res1, obs_human(&live), w.len(), marker.len(), stages.len(), g2.human,
+        "{label}: sync={:?} before_previous_checkpoint={:?} ops={:?} results={:?} live_at_checkpoint={} log_on_disk={} marker_len={} points={:?} crash_states={} | after checkpoint: {}{}",
+        cfg.sync_mode, pre, ops1, o1.results, obs_human(&live), wdisk.len(), marker.len(),
+        seen.iter().map(|x| x.0.as_str()).collect::<Vec<_>>(), nstates, g2.human,
         fail.as_ref().map(|f| format!(" ORACLE-FALSE: {f}")).unwrap_or_default()
     );
-    wck.push(&term, &human, ops1.len() >= 2);
+    wck.push(&term, &human, o1.model_ops.len() >= 2);
     let _ = fs::remove_file(&wal);
     let _ = fs::remove_file(&snap);
 }
@@ -704,29 +805,137 @@ fn main() {
                 }
             }
         }
+        if rng.chance(1, 6) {
+            let gi = rng.below(gens.len() as u64) as usize;
+            let i = rng.below(gens[gi].len() as u64 + 1) as usize;
+            gens[gi].insert(i, Op::CkptFail(rng.below(2)));
+        }
         run_case_cfg(&mut cx, &format!("seed{} #{}", args.seed, ci), gens, picks, cfg);
     }
     // ---------------- crashes inside checkpoint() ----------------
     let mut wck = CaseWriter::new(&args.out, "ckpt");
+    let manual = WalConfig { sync_mode: tensor_store::SyncMode::Manual, ..WalConfig::default() };
+    let batched = |n: usize| WalConfig { sync_mode: tensor_store::SyncMode::Batched { max_entries: n }, ..WalConfig::default() };
     run_ckpt_case(
         &mut cx,
         &mut wck,
         "corpus checkpoint",
+        None,
         vec![Op::Put(1, v(1, None)), Op::Put(0, v(2, Some(1))), Op::Del(1), Op::Put(6, v(3, None)), Op::Del(0), Op::Put(0, v(4, Some(2)))],
         vec![Op::Put(2, v(5, None)), Op::Del(6), Op::Put(0, v(6, None))],
+        WalConfig::default(),
     );
-    let nck = args.budget(8, 120);
+    // a second checkpoint (an older snapshot is in place while the new one is being taken)
+    run_ckpt_case(
+        &mut cx,
+        &mut wck,
+        "corpus second-checkpoint",
+        Some(vec![Op::Put(1, v(1, None)), Op::Put(6, v(2, None)), Op::Put(2, v(3, None))]),
+        vec![Op::Put(1, v(2, None)), Op::Del(6), Op::Put(7, v(4, None))],
+        vec![Op::Put(6, v(5, None)), Op::CkptFail(1), Op::Put(2, v(1, None))],
+        WalConfig::default(),
+    );
+    // in-place, fixed-size updates under Manual / Batched sync, records still unsynced when
+    // checkpoint() is called, then acknowledged (synced) overwrites, crash
+    for (lbl, c) in [("manual", manual.clone()), ("batched", batched(1000)), ("batched-3", batched(3))] {
+        run_ckpt_case(
+            &mut cx,
+            &mut wck,
+            &format!("corpus checkpoint-with-unsynced-records ({lbl})"),
+            None,
+            vec![Op::Put(1, v(1, None)), Op::Put(6, v(1, None)), Op::Put(1, v(2, None)), Op::Put(6, v(2, None)), Op::Put(1, v(1, None))],
+            vec![Op::Put(6, v(1, None)), Op::Sync, Op::Put(1, v(2, None)), Op::Del(6), Op::Sync],
+            c.clone(),
+        );
+        // the same with records of one size only (every new record ends on an old record boundary)
+        run_ckpt_case(
+            &mut cx,
+            &mut wck,
+            &format!("corpus checkpoint-with-unsynced-records, fixed-size records ({lbl})"),
+            None,
+            vec![Op::Put(1, v(1, None)), Op::Put(6, v(1, None)), Op::Put(1, v(2, None)), Op::Put(6, v(2, None)), Op::Put(1, v(1, None))],
+            vec![Op::Put(1, v(2, None)), Op::Sync, Op::Put(6, v(1, None)), Op::Sync],
+            c,
+        );
+    }
+    // a SECOND checkpoint under manual / batched sync (the log handle was re-created by the first
+    // one), then exactly as many fixed-size records as the log held before
+    for (lbl, c) in [("manual", manual.clone()), ("batched-3", batched(3))] {
+        run_ckpt_case(
+            &mut cx,
+            &mut wck,
+            &format!("corpus second-checkpoint, fixed-size records ({lbl})"),
+            Some(vec![Op::Put(3, v(2, Some(1))), Op::Put(4, v(9, None))]),
+            vec![Op::Put(1, v(1, None)), Op::Put(6, v(1, None)), Op::Put(6, v(2, None)), Op::Put(6, v(1, None)), Op::Put(1, v(1, None))],
+            vec![Op::Put(1, v(2, None)), Op::Put(6, v(2, None)), Op::Put(1, v(1, None)), Op::Put(1, v(2, None)), Op::Put(6, v(2, None)), Op::Sync],
+            c,
+        );
+    }
+    // part of the log synced, the rest still buffered when checkpoint() is called: a crash right
+    // after the snapshot rename must not replay the stale log prefix over the newer snapshot
+    run_ckpt_case(
+        &mut cx,
+        &mut wck,
+        "corpus checkpoint-partially-synced (manual)",
+        None,
+        vec![Op::Put(1, v(1, None)), Op::Put(6, v(1, None)), Op::Sync, Op::Put(1, v(2, None)), Op::Del(6), Op::Put(2, v(3, None))],
+        vec![Op::Put(6, v(2, None)), Op::Sync],
+        manual.clone(),
+    );
+    // a checkpoint that fails while writing the snapshot, more writes, crash
+    run_case(
+        &mut cx,
+        "corpus failed-checkpoint-then-crash",
+        vec![vec![Op::Put(1, v(1, None)), Op::Put(6, v(2, None)), Op::CkptFail(0), Op::Put(2, v(3, None)), Op::CkptFail(1), Op::Del(1)], vec![Op::Put(1, v(4, None))]],
+        vec![pick_end(), pick_end()],
+    );
+    let nck = args.budget(10, 120);
     for ci in 0..nck {
-        let big = ci % 8 == 7;
+        let big = ci % 10 == 9;
         let mut keys: Vec<u64> = (0..K).collect();
         rng.shuffle(&mut keys);
         keys.truncate(rng.range(2, 5) as usize);
+        let n0 = rng.range(1, 4) as usize;
         let n1 = if big { rng.range(1, 3) } else { rng.range(1, 8) } as usize;
         let n2 = if big { rng.range(0, 2) } else { rng.range(0, 5) } as usize;
-        let ops1 = gen_ops(&mut rng, n1, big, &keys);
-        let ops2 = gen_ops(&mut rng, n2, big, &keys);
-        cx.dist.hit("case.checkpoint");
-        run_ckpt_case(&mut cx, &mut wck, &format!("seed{} ckpt#{}", args.seed, ci), ops1, ops2);
+        let pre = if rng.chance(1, 3) { Some(gen_ops(&mut rng, n0, false, &keys)) } else { None };
+        let mut ops1 = gen_ops(&mut rng, n1, big, &keys);
+        let mut ops2 = gen_ops(&mut rng, n2, big, &keys);
+        // sync modes (small values only); unsynced records at the checkpoint are the interesting case
+        let mode = if big { 0 } else { rng.below(10) };
+        let cfg = match mode {
+            6 | 7 => manual.clone(),
+            8 | 9 => batched(*rng.pick(&[2usize, 3, 1000])),
+            _ => WalConfig::default(),
+        };
+        if mode >= 6 && rng.chance(1, 2) {
+            // in-place update workload: two keys of one length, values of one size
+            let fixed = |r: &mut Rng, nn: usize| -> Vec<Op> { (0..nn).map(|_| Op::Put(*r.pick(&[1u64, 6]), Val { base: r.range(1, 2), emb: None })).collect() };
+            ops1 = fixed(&mut rng, n1.max(2));
+            ops2 = fixed(&mut rng, n2.max(1));
+            cx.dist.hit("case.checkpoint.fixed_size_records");
+        }
+        if mode >= 6 {
+            if rng.chance(1, 3) {
+                let i = rng.below(ops1.len() as u64 + 1) as usize;
+                ops1.insert(i, Op::Sync);
+            }
+            let mut i = 0;
+            while i <= ops2.len() {
+                if rng.chance(1, 2) {
+                    ops2.insert(i, Op::Sync);
+                    i += 1;
+                }
+                i += 1;
+            }
+            ops2.push(Op::Sync);
+        }
+        if rng.chance(1, 5) {
+            let i = rng.below(ops2.len() as u64 + 1) as usize;
+            ops2.insert(i, Op::CkptFail(rng.below(2)));
+        }
+        cx.dist.hit(&format!("case.checkpoint.{}", match mode { 6 | 7 => "manual", 8 | 9 => "batched", _ => "immediate" }));
+        run_ckpt_case(&mut cx, &mut wck, &format!("seed{} ckpt#{}", args.seed, ci), pre, ops1, ops2, cfg);
     }
 
     // ---------------- implementation-only stream: log rotation (known finding class) ----------------
